@@ -1272,6 +1272,9 @@ def concrete_eval(ctx: Ctx, f: FunctionInfo, e: Optional[ast.AST], env: Dict[str
             return base.value
         if isinstance(base, EnumVal) and e.attr == "name":
             return base.name
+        import datetime as _dt
+        if isinstance(base, _dt.timedelta) and e.attr in ("days", "seconds", "microseconds"):
+            return getattr(base, e.attr)
         return UNKNOWN
     if isinstance(e, ast.IfExp):
         t = ev(e.test)
@@ -1442,6 +1445,20 @@ def concrete_eval(ctx: Ctx, f: FunctionInfo, e: Optional[ast.AST], env: Dict[str
             if unknown_key:
                 return UNKNOWN
             return ev(e.args[1]) if len(e.args) > 1 else None
+    if isinstance(e, ast.Call) and (dotted(e.func) or "").split(".")[-1] == "timedelta" and not e.args and e.keywords \
+            and all(k.arg in ("days", "seconds", "microseconds", "milliseconds", "minutes", "hours", "weeks") for k in e.keywords):
+        import datetime as _dt
+        kv = {k.arg: ev(k.value) for k in e.keywords}
+        if all(isinstance(v_, (int, float)) and not isinstance(v_, bool) for v_ in kv.values()):
+            try:
+                return _dt.timedelta(**kv)  # type: ignore[arg-type]  # a duration VALUE (pure data), for helpers that take one apart
+            except Exception:
+                return UNKNOWN
+        return UNKNOWN
+    if isinstance(e, ast.Call) and isinstance(e.func, ast.Attribute) and e.func.attr == "total_seconds" and not e.args and not e.keywords:
+        import datetime as _dt
+        b_ = ev(e.func.value)
+        return b_.total_seconds() if isinstance(b_, _dt.timedelta) else UNKNOWN
     if isinstance(e, ast.Call) and isinstance(e.func, ast.Attribute) and (e.func.attr + "()") in env and not e.keywords:
         # scenario hook for a storage / OS answer: `<x>.list_files(..)` -> the scripted listing, `<x>.get_modified_time(p)` ->
         # the scripted table's entry for the evaluated argument
